@@ -613,6 +613,38 @@ pub fn gen_cfg(prop: &str, seed: u64) -> RunCfg {
             }
             cfg
         }
+        "C15" => {
+            g.allow_seek = false;
+            g.size_profile = if g.rng.pct(25) { 1 } else { 0 };
+            let pp = if g.rng.pct(15) { 50 } else { 0 };
+            let spec = match g.rng.weighted(&[25, 40, 35]) {
+                0 => g.leaf(pp),
+                1 => any_stack(&mut g, pp),
+                _ => overlay_stack(&mut g, pp, 1, 3),
+            };
+            let mut world = World { m: vec![spec.view()], w: Default::default() };
+            g.avoid_known = spec.has_ovl();
+            let n = g.rng.range(4, 24);
+            // walk_dir and composite operations carry the async-only state machines
+            let base: [u32; 19] = [3, 3, 1, 1, 5, 5, 3, 9, 9, 6, 6, 6, 6, 9, 6, 4, 4, 5, 5];
+            let w = swarm_weights(&mut g.rng, &base);
+            let mut ops = vec![];
+            for _ in 0..n {
+                ops.extend(gen_history(&mut g, &mut world, 1, &w));
+                if g.rng.pct(12) {
+                    let mut blk = reader_block(&mut g, &world.m[0], 0);
+                    if spec.has_phys() && g.rng.pct(90) {
+                        // known finding: async-std's File reports EOF after a zero-length read
+                        blk.retain(|o| !matches!(o, Op::HRead(_, 0)));
+                    }
+                    ops.extend(blk);
+                }
+            }
+            let mut cfg = base_cfg(prop, "async", seed, &mut g, vec![spec], ops);
+            cfg.extra.insert("pend_pct_a".into(), g.rng.pick(&[10u32, 30, 50]).to_string());
+            cfg.extra.insert("pend_pct_b".into(), g.rng.pick(&[60u32, 80, 100]).to_string());
+            cfg
+        }
         _ => panic!("no generator for {}", prop),
     }
 }
@@ -862,6 +894,7 @@ pub fn run_cfg(cfg: &RunCfg, trace: bool) -> RunOut {
         "C19" => crate::mon_time::run_c19(cfg, trace),
         "C20" => crate::mon_fault::run_c20(cfg, trace),
         "C13" => crate::mon_panic::run_c13(cfg, trace),
+        "C15" => crate::mon_async::run_c15(cfg, trace),
         "C02" => crate::mon_twin::run_c02(cfg, trace),
         "C07" => crate::mon_twin::run_c07(cfg, trace),
         "C08" => crate::mon_overlay::run_c08(cfg, trace),
@@ -877,7 +910,6 @@ use serde_json::{json, Value};
 pub fn engine_of(prop: &str) -> &'static str {
     match prop {
         "C16" | "C17" => "conc",
-        "C15" => "async",
         _ => "seq",
     }
 }
